@@ -43,9 +43,6 @@ use crate::types::Segment;
 pub struct RaftLog<T: Types> {
     pub(crate) config: Arc<Config>,
 
-    /// Acquire the dir exclusive lock when writing to the log.
-    _dir_lock: FileLock,
-
     pub(crate) wal: RaftLogWAL<T>,
 
     pub(crate) state_machine: RaftLogStateMachine<T>,
@@ -56,6 +53,13 @@ pub struct RaftLog<T: Types> {
     removed_chunks: Vec<String>,
 
     access_stat: AccessStat,
+
+    /// Acquire the dir exclusive lock when writing to the log.
+    ///
+    /// Declared last so that it is released last: `wal` is dropped before it
+    /// and waits for the FlushWorker to quit, so the directory stays locked
+    /// until nothing of this instance can touch it any more.
+    _dir_lock: FileLock,
 }
 
 impl<T: Types> RaftLogWriter<T> for RaftLog<T> {
